@@ -1,5 +1,6 @@
 package vgirpc
 
+//verif:quote approx
 //verif:ints lia
 //verif:unwind 16
 //verif:maxconcretize 16
